@@ -1500,3 +1500,24 @@ def known(ctx, c):
     if why.startswith("late: response handler saw a token") or why.startswith("late: nack handler saw a token"):
         return "c09-late-message-raw-token"
     return None
+
+
+# ---- T1X: the numerals of this property's models are tied to the current tree.  extract/consts2*.c + a source scan
+# rewrite lean/CoapVerif/Generated/Consts2.lean on every check; Props/C09Consts.lean proves `<model numeral> =
+# Generated.C2.<name>` (design/T1.md).  A changed macro / struct size / literal breaks one of these named obligations.
+LEAN_MODULES = list(LEAN_MODULES) + ["CoapVerif.Props.C09Consts"]
+REQUIRED_THEOREMS = list(REQUIRED_THEOREMS) + [
+    "blockNumMax_matches_code",
+    "getBlockB_matches_code",
+    "stateTokenBase_matches_code",
+    "stateTokenShift_matches_code",
+    "blockConst_matches_code",
+    "blockMaxSize_matches_code",
+]
+TRUSTED_BASE = list(TRUSTED_BASE) + ["T1 extractors extract/consts2.c, consts2_net.c, consts2_opt.c and the source scan vlib/tables.py scan_consts2 (Generated/Consts2.lean)"]
+_t1x_prev_extract = globals().get("extract")
+
+
+def extract(ctx):
+    from vlib import tables
+    return (_t1x_prev_extract(ctx) if _t1x_prev_extract else []) + tables.extract_consts2()
